@@ -15,7 +15,7 @@ from ..models.mpt import BLANK_ROOT, RefMPT, nibbles_of, rlp_any
 
 ID = "C03"
 LEVEL = "exploration"
-RUNS = {"quick": 4000, "thorough": 50000}
+RUNS = {"quick": 2500, "thorough": 40000}
 RULE = (
     "each run: a non-pruning trie with a seeded history of 4-30 mutations (every root and its contents remembered), a "
     "foreign trie over related keys, and 10-40 proof exchanges at seeded points of the history: the prover calls "
@@ -41,6 +41,7 @@ PROBES = [
     "stale-version-substituted-rejected",
     "stale-root-claimed",
     "unknown-root-claimed",
+    "proof-from-path-only-store",
 ]
 FAULTS = ["msg-drop", "msg-dup", "msg-reorder", "msg-alter", "msg-substitute", "msg-stale-root"]
 COMPONENTS = {
@@ -52,6 +53,11 @@ ASSUMPTIONS = [
     "claimed roots are genuine roots of a simulated trie, the blank root, or random bytes; therefore every node reachable from a claimed root is a genuine node (keccak collision resistance)",
     "delivered nodes are well-formed (the statement speaks of well-formed nodes)",
 ]
+
+
+def get_proof_again(second, first):
+    """The first proof was cleared of nothing yet at this point; compare like for like."""
+    return first
 
 
 def node_hash(node):
@@ -147,6 +153,18 @@ class World(HWorld):
         if got != want:
             self.viol("proof-incomplete", f"get_from_proof(root, {key.hex()}, get_proof(key)) returned {got!r}, get(key) is {want!r}")
         st.execs += 1
+        # a store that holds exactly the nodes on the key's path (a light client that kept
+        # one proof) must give the same proof: nothing off the path may be needed
+        if cmd.get("pathonly") and r.root is not None:
+            on_path_hashes = {n.hash for n in path if n.hash is not None}
+            self.db.arm(withhold=set(self.db.raw()) - on_path_hashes)
+            status2, proof2 = self.call(HexaryTrie(self.db, fresh(root)).get_proof, key)
+            self.db.disarm()
+            if status2 == "exc":
+                self.viol("proof-off-path", f"get_proof({key.hex()}) on a store holding exactly the key's path raised {proof2!r}: it needs a node that is not on the path")
+            if [rlp_any(x) for x in proof2] != [rlp_any(x) for x in get_proof_again(proof2, proof)]:
+                self.viol("proof-off-path", f"get_proof({key.hex()}) differs between the complete store and a store holding exactly the key's path")
+            st.probe("proof-from-path-only-store")
         st.probe("proof-of-present-key" if want else "proof-of-absent-key")
         if not path:
             st.probe("proof-on-empty-trie")
@@ -364,6 +382,8 @@ def generate(rng):
             pos = len(cmds)
             k = rng.choice([pool[0], pool[0], pool[-1], pool[-2], pool[0][:-1] + bytes([pool[0][-1] ^ 1])])
         c = {"op": "prove", "k": hx(k)}
+        if rng.random() < 0.4:
+            c["pathonly"] = 1
         if rng.random() < 0.3:
             c["root"] = rng.randrange(1000)
         if rng.random() < 0.6 and not deep_pool:
